@@ -53,7 +53,9 @@ Theorem c18_generate_library : forall from to,
   m7396_doc from = true -> m7396_doc to = true -> no_null_member to = true ->
   m7396_depth_ok from = true -> m7396_depth_ok to = true ->
   exists p from' to' d,
-    cJSONUtils_GenerateMergePatchCaseSensitive (Some from) (Some to) = Ok (p, Some from', Some to') /    mp_Duplicate (Some from) = Some d /    match p with
+    cJSONUtils_GenerateMergePatchCaseSensitive (Some from) (Some to) = Ok (p, Some from', Some to') /\
+    mp_Duplicate (Some from) = Some d /\
+    match p with
     | None => doc_eq d to = true
     | Some s => exists r, cJSONUtils_MergePatchCaseSensitive (Some d) (Some s) = Some r /\ doc_eq r to = true
     end.
